@@ -93,9 +93,9 @@ def gen_op(rng, z, malformed):
     if 1 <= n <= 600:
         kinds += ['shiftcrop', 'shiftcrop']
         if isinstance(z, pb.BasebandSignal):
-            kinds += ['dedisp']
+            kinds += ['dedisp'] * 2
         if isinstance(z, pb.RadioSignal) and not isinstance(z, pb.BasebandSignal):
-            kinds += ['incoh']
+            kinds += ['incoh'] * 4
     k = rng.choice(kinds)
     if k == 'slice':
         a, b = rand_bound(rng, n), rand_bound(rng, n)
@@ -167,13 +167,24 @@ def gen_op(rng, z, malformed):
         return k, f'(ODedispCrop {zlit(start)} {zlit(stop)})', thunk, dict(dm=float(dm.value), start=start, stop=stop)
     if k == 'incoh':
         dm = pb.DM(rng.choice([-1, 1]) * 10 ** rng.uniform(-3, 1.0))
-        ref = rng.choice([None, z.max_freq, z.min_freq])
+        # also references outside the band: every channel is then delayed in the same direction (no channel has delay <= 0)
+        ref = rng.choice([None, z.max_freq, z.min_freq, z.max_freq * 1.5, z.center_freq * 10, z.min_freq / 2])
         rf = z.center_freq if ref is None else ref
+        if rng.random() < 0.5 and n >= 8:
+            # every channel delayed the same way by a few samples: reference above the band (DM > 0) / below it (DM < 0),
+            # DM sized so that the nearest band edge is m samples from the reference
+            above = rng.random() < 0.5
+            ref = rf = (z.max_freq * rng.choice([1.5, 4.0])) if above else (z.min_freq / rng.choice([1.5, 4.0]))
+            m = rng.randint(1, max(1, n // 4))
+            edge = z.max_freq if above else z.min_freq
+            unit = abs(float(pb.DM(1.0).sample_delay(edge, rf, z.sample_rate)))
+            if unit > 0 and np.isfinite(unit):
+                dm = pb.DM((1 if above else -1) * m / unit)
         d = dm.sample_delay(z.channel_freqs, rf, z.sample_rate)
         d = np.asarray(d).round().astype(np.int64)
         cb = int(-min(0, d[0], d[-1]))
         nout = int(n - max(d + cb))
-        if nout < 0 or cb + nout > n:
+        if nout < 0 or cb + nout > n or not (np.all(np.diff(d) <= 0) or np.all(np.diff(d) >= 0)) or float(z.min_freq.value) <= 0:
             # degenerate crops (delays beyond the signal, reference outside the band) are C06's subject
             return gen_op(rng, z, malformed)
 
